@@ -34,6 +34,10 @@ def _shapes(tier, cfg, t, base):
     W = cfg.w(t)
     S = []
     if tier == "quick":
+        if t == "i64":      # 64-bit integers: their multiply has kernels of its own per ISA; a reduced box
+            S = [(M, K, N) for M in (1, 2, 3) for K in (1, 2, 3) for N in (1, 2, 3)]
+            S += [(2, 3, N) for N in range(1, 2 * W + 2)] + [(5, 3, W + 2), (2 * W + 5, 3, 2 * W + 3)]
+            return sorted(set(S))
         if t == "f64":
             S += [(M, K, N) for M in (1, 2, 3, 4, 5) for K in (1, 2, 3, 4, 5) for N in (1, 2, 3, 4, 5)]
         else:
@@ -73,7 +77,7 @@ def cases(tier, cfg):
     out = []
     base = cfg.tag in [Config(isa=i).tag for i in ALL_ISAS]
     if tier == "quick":
-        types = ["f64", "f32", "i32"] if cfg.isa != "A1" else ["f64"]
+        types = ["f64", "f32", "i32", "i64"] if cfg.isa != "A1" else ["f64"]
     else:
         types = ["f64", "f32", "i32", "i64"] if base else ["f64", "i32"]
     for t in types:
@@ -106,6 +110,6 @@ def cases(tier, cfg):
 
 
 def bounds(tier):
-    return {"quick": "f64 cube M,K,N<=5, f32/i32 cube <=3; M in {1,2,5,W+1} x K in {1,3,W+1} x N in {W-1,W,W+1,W+2,2W+1} for f64,f32,i32; + the four-row middle zone M=2W+5 (K in {3,2W+3}, N in {W+2,2W+1,2W+3}); N in W+1..2W-1 for M=2,K=3; tensor/expression operand combinations on (3,3,3),(5,4,W+2) for f64,f32; nine tag pairs; S2,A1,A2,A5",
+    return {"quick": "f64 cube M,K,N<=5, f32/i32 cube <=3; M in {1,2,5,W+1} x K in {1,3,W+1} x N in {W-1,W,W+1,W+2,2W+1} for f64,f32,i32 (i64: cube <=3, M=2,K=3 x every N<=2W+1, two larger shapes); + the four-row middle zone M=2W+5 (K in {3,2W+3}, N in {W+2,2W+1,2W+3}); N in W+1..2W-1 for M=2,K=3; tensor/expression operand combinations on (3,3,3),(5,4,W+2) for f64,f32; nine tag pairs; S2,A1,A2,A5",
             "thorough": "f64: M,N<=13 x K in {1,2,3,4,5,8,9,13} on S2/A2/A5, cube<=8 on S0/S4/A1; f32,i32,i64: cube<=6 (main ISAs) + "
                         "N in {W-1..W+1,2W..2W+2,3W+1}; M in {2W+4,2W+5,2W+7,3W+5} x K in {3,W+2,2W+3} x N in {W+2,2W+1,2W+3} (four-row middle zone); tensor/expression operand combinations on four shapes; nine tag pairs; six ISAs + C++17 + ASan"}[tier]
